@@ -28,6 +28,35 @@ class GhostState:
         object.__setattr__(self, k, v)
 
 
+class _AnyKey:
+    def __init__(self, f):
+        self.f = f
+
+    def __getitem__(self, k):
+        return self.f(k)
+
+    def get(self, k, default=None):
+        return self.f(k)
+
+
+class _GhostRecords:
+    def __init__(self, ev):
+        self.ev = ev
+        self.ep = z3.Array("ep_%d" % id(ev), z3.IntSort(), z3.IntSort())
+
+    def sym_len(self):
+        return self.ev.L
+
+    def __getitem__(self, index):
+        ev = self.ev
+        idx = ev._pos(index)
+        ev.reads.append(idx)
+        epoch = A.SymInt(z3.Select(self.ep, A._z(idx)))
+        if ev.kind == "metric":
+            return (epoch, _AnyKey(lambda k: SymReal(z3.Select(ev.vals, A._z(idx)))))
+        return (epoch, _AnyKey(lambda k: {"mean": SymReal(z3.Select(ev.vals, A._z(idx))), "variance": SymReal(z3.Select(ev.vars_, A._z(idx)))}))
+
+
 class GhostEvaluator:
     """Stand-in for Metric/ObservableEvaluator: an evaluation history of symbolic length L with symbolic
     values (and variances).  `kind` decides what sandbox isinstance() answers."""
@@ -62,6 +91,12 @@ class GhostEvaluator:
 
     def value(self, idx):
         return SymReal(z3.Select(self.vals, A._z(idx)))
+
+    @property
+    def past_values(self):
+        """The raw record list of the real evaluators: entries (epoch of the evaluation, values).  The epochs are
+        arbitrary (the evaluator has its own period and position in the callback list)."""
+        return _GhostRecords(self)
 
     def variance(self, idx):
         return SymReal(z3.Select(self.vars_, A._z(idx)))
